@@ -794,6 +794,11 @@ class CoherenceEngine(Engine):
                 d = rng.choice(dirs)
                 stem = rng.choice(MODNAMES + ["helper", "extra"])
                 q = (d + "/" if d else "") + stem + (".txt" if p.endswith(".py") and rng.random() < 0.4 else ".py")
+                nonmod = [f for f in files if not f.endswith(".py") and not f.endswith("~")]
+                if nonmod and rng.random() < 0.5:
+                    # a text file becomes a module of the same name (helper.txt -> helper.py)
+                    p = rng.choice(nonmod)
+                    q = p.rsplit(".", 1)[0] + ".py"
                 return {"a": "c_rename_file", "p": p, "q": q, "dt": dt}
             if k == "remove" and (files or len(dirs) > 1):
                 if files and rng.random() < 0.3:
@@ -859,7 +864,7 @@ class CoherenceEngine(Engine):
         init = gen.gen_program(rng)
         for e in init:
             e["nl"] = "lf"
-        if rng.random() < 0.5:
+        if rng.random() < 0.6:
             init.append({"p": "helper.txt", "text": "def util():\n    return 1\n\n\nclass Thing:\n    size = 3\n", "nl": "lf", "enc": "utf-8"})
         return self._go({"init": init, "swarm": swarm, "steps": None}, rng)
 
